@@ -258,7 +258,7 @@ class MemoryUserManager(AbstractUserManager):
         elif self.available_connections[user].locked():
             state = AbstractUserManager.GetUserResponse.ERROR
             info = f"too much connections for {user.login or 'anonymous'!r}"
-        elif user.login is None:
+        elif user.login is None and user.password is None:
             state = AbstractUserManager.GetUserResponse.OK
             info = "anonymous login"
         elif user.password is None:
